@@ -149,7 +149,7 @@ def wide_mixed_case(draw, tier):
 
 
 def parts(tier):
-    return [Part("wide_thresholds", enumerate_cases=(lambda t: (dict(c_, via_not=bool(j_ % 2)) for j_, c_ in enumerate(__import__("vf.strategies", fromlist=["x"]).wide_threshold_cases()) if c_["model"]["k"] != "Not")), check=check, time_quick=200.0), Part("wide_mixed", strategy=lambda t: wide_mixed_case(t), check=check, quick=(2, 40), thorough=(4, 500)), Part("scale", strategy=lambda t: __import__("vf.strategies", fromlist=["x"]).scale_case().map(lambda c: dict(c, via_not=len(str(c)) % 2 == 0)), check=check, quick=(2, 40), thorough=(4, 600)), Part("concat_names", enumerate_cases=(lambda t: ({"model": s_, "points": None, "via_not": v_} for s_ in __import__("vf.strategies", fromlist=["x"]).concat_shapes() for v_ in (False, True))), check=check, time_quick=120.0), Part("shared_depths", enumerate_cases=(lambda t: ({"model": s_, "points": None, "via_not": bool(len(str(s_)) % 2)} for s_ in __import__("vf.strategies", fromlist=["x"]).shared_depth_shapes())), check=check, time_quick=120.0), Part("empty0", enumerate_cases=(lambda t: empty(0, 1)), check=check, time_quick=120.0), Part("wide_nodes", strategy=lambda t: __import__("vf.strategies", fromlist=["x"]).wide_case().map(lambda c: dict(c, via_not=len(str(c)) % 2 == 0)), check=check, quick=(2, 150), thorough=(4, 2000))] + [Part("mixed%d" % i, enumerate_cases=(lambda t, i=i: mixed(i, 8)), check=check, time_quick=150.0) for i in range(8)] + [Part("shapes%d" % i, enumerate_cases=(lambda t, i=i: shapes(i, 4)), check=check, time_quick=120.0) for i in range(4)] + [
+    return [Part("cfg_shapes", enumerate_cases=(lambda t: ({"model": s_, "points": None, "via_not": bool(j_ % 2)} for j_, s_ in enumerate(S.cfg_small_shapes()))), check=check, time_quick=150.0), Part("wide_thresholds", enumerate_cases=(lambda t: (dict(c_, via_not=bool(j_ % 2)) for j_, c_ in enumerate(__import__("vf.strategies", fromlist=["x"]).wide_threshold_cases()) if c_["model"]["k"] != "Not")), check=check, time_quick=200.0), Part("wide_mixed", strategy=lambda t: wide_mixed_case(t), check=check, quick=(2, 40), thorough=(4, 500)), Part("scale", strategy=lambda t: __import__("vf.strategies", fromlist=["x"]).scale_case().map(lambda c: dict(c, via_not=len(str(c)) % 2 == 0)), check=check, quick=(2, 40), thorough=(4, 600)), Part("concat_names", enumerate_cases=(lambda t: ({"model": s_, "points": None, "via_not": v_} for s_ in __import__("vf.strategies", fromlist=["x"]).concat_shapes() for v_ in (False, True))), check=check, time_quick=120.0), Part("shared_depths", enumerate_cases=(lambda t: ({"model": s_, "points": None, "via_not": bool(len(str(s_)) % 2)} for s_ in __import__("vf.strategies", fromlist=["x"]).shared_depth_shapes())), check=check, time_quick=120.0), Part("empty0", enumerate_cases=(lambda t: empty(0, 1)), check=check, time_quick=120.0), Part("wide_nodes", strategy=lambda t: __import__("vf.strategies", fromlist=["x"]).wide_case().map(lambda c: dict(c, via_not=len(str(c)) % 2 == 0)), check=check, quick=(2, 150), thorough=(4, 2000))] + [Part("mixed%d" % i, enumerate_cases=(lambda t, i=i: mixed(i, 8)), check=check, time_quick=150.0) for i in range(8)] + [Part("shapes%d" % i, enumerate_cases=(lambda t, i=i: shapes(i, 4)), check=check, time_quick=120.0) for i in range(4)] + [
         Part("thresholds", strategy=lambda t: focus(t), check=check, quick=(2, 400), thorough=(4, 3000)),
         Part("small", strategy=lambda t: strat(t, "small"), check=check, quick=(6, 350), thorough=(12, 2500)),
         Part("large", strategy=lambda t: strat(t, "large"), check=check, quick=(2, 250), thorough=(4, 1500)),
